@@ -146,7 +146,10 @@ class Module:
         if name is not None and val.name is not None:  # Both set, fail.
             msg = f"{val} with conflicting names {name} and {val.name} cannot be added to Module {self.name}"
             raise RuntimeError(msg)
-        if name is not None:  # One or the other set - great.
+        # One or the other set - great.
+        # `val` takes the name once the addition is known to be valid: a rejected addition leaves `val` as it was.
+        _assert_addable(self, val, name if name is not None else val.name)
+        if name is not None:
             val.name = name
 
         # Now `val.name` is set appropriately.
@@ -190,6 +193,8 @@ class Module:
         _assert_module_attr(self, val)
 
         # Checks out! Name `val` and add it to our type-based containers.
+        # `val` takes the name once the addition is known to be valid: a rejected addition leaves `val` as it was.
+        _assert_addable(self, val, key)
         val.name = key
         _add(module=self, val=val)
         return None
@@ -318,19 +323,26 @@ _banned = [
 _reserved = _banned + ["name"]
 
 
+def _assert_addable(module: Module, val: ModuleAttr, name: str) -> None:
+    """Raise a `RuntimeError` if `val` cannot be added to `module` under the name `name`.
+    Checked by `Module.add` and `Module.__setattr__` *before* they give `val` its name, and again by `_add`."""
+
+    if module._elaborated is not None:
+        raise RuntimeError(f"Cannot add {val} to {module} after elaboration.")
+
+    # Reserved names denote the Module's own Python attributes and methods, however the attribute arrives here
+    if name in _reserved:
+        msg = f"Invalid name {name} for attribute {val} of {module}: reserved by `Module`"
+        raise RuntimeError(msg)
+
+
 def _add(module: Module, val: ModuleAttr) -> ModuleAttr:
     """Internal `Module.add` and `Module.__setattr__` implementation.
     Primarily sort `val` into one of our type-based containers.
     Layers above `_add` must ensure that `val` has its `name` attribute before calling this method.
     """
 
-    if module._elaborated is not None:
-        raise RuntimeError(f"Cannot add {val} to {module} after elaboration.")
-
-    # Reserved names denote the Module's own Python attributes and methods, however the attribute arrives here
-    if val.name in _reserved:
-        msg = f"Invalid name {val.name} for attribute {val} of {module}: reserved by `Module`"
-        raise RuntimeError(msg)
+    _assert_addable(module, val, val.name)
 
     # Sort out which of our type-based containers to add `val` to.
     if isinstance(val, Signal):
